@@ -535,12 +535,16 @@ def r9_propagation(F, res, rid):
         res.ok(rid, "direction", where, "extend(target kernel item follow, source item follow)")
         res.ok(rid, "source-items", where, "source searched in state.items (all items)")
     # filter of target items is is_kernel
-    fk = False
+    fk = None
     for cl in cls:
         cs = {callee(t) for _, t in cl.calls()}
         if any(c.endswith("LRItem::is_kernel") for c in cs):
-            fk = True
-    if fk:
+            # the filter closure answers is_kernel() itself (not its negation, nothing and-ed to it)
+            pi = idiom.predicate_is(F, cl, "LRItem::is_kernel")
+            fk = pi if fk is None else (fk and pi)
+    if fk is None:
+        res.violation(rid, "target-kernel", "propagation does not restrict the updated items to the kernel items of the target state", where)
+    elif fk:
         res.ok(rid, "target-kernel", where)
     else:
         res.violation(rid, "target-kernel", "propagation does not restrict the updated items to the kernel items of the target state", where)
